@@ -127,6 +127,39 @@ class C02(Prop):
         t = rng.choice(mito.LONGCONST_TRACER).format(c=mito.long_const(n), d=mito.long_const(n, "y"))
         return [mito.met_line("math", t), mito.pyev_line(t)]
 
+    def _literal_lines(self, rng):
+        """string literals whose CONTENTS a text preprocessor would rewrite (typographic operators, odd spaces, invisible
+        characters, ASCII spellings of operators / keywords, canonically equivalent and case-variant text) on every
+        pathway and entry point; spellings Python refuses"""
+        k = rng.random()
+        if k < 0.15:
+            src = rng.choice(mito.SPELLINGS)
+            return [mito.cmet_line(rng.choice(["math", "logic", "auto"]), src), mito.cdg_line(src, False)]
+        j = rng.randrange(len(mito.LITERAL_PAIRS))
+        f, g = mito.LITERAL_PAIRS[j]
+        if k < 0.30:
+            c, d = mito.lit_quote("a" + f + "b"), mito.lit_quote(g + f)
+            if c and d:
+                t = rng.choice(mito.STRCONST_TRACER).format(c=c, d=d)
+                return [mito.met_line("math", t), mito.pyev_line(t)]
+        texts = mito.literal_texts(f, g, rng.randrange(100))
+        if rng.random() < 0.4:
+            # two fragments in one literal, in a generated expression of the grammar
+            f2, _g2 = rng.choice(mito.LITERAL_PAIRS)
+            q = mito.lit_quote(f + " " + f2 + rng.choice(["", "x", " "]))
+            if q:
+                texts.append(rng.choice(mito.LIT_WRAPS).format(F=q, G=mito.lit_quote(g) or "''"))
+        src = rng.choice(texts)
+        r = rng.random()
+        if r < 0.55:
+            return [mito.cmet_line(rng.choice(["math", "logic", "auto", "auto"]), src)]
+        if r < 0.70:
+            return [mito.cdg_line(src, False)]
+        if r < 0.85:
+            return [mito.cmet_line(rng.choice(["tool", "auto"]), rng.choice(["first({})", "ident({}, k={})", "first(k={})"])
+                                   .replace("{}", src))]
+        return [mito.cmet_line(rng.choice(["auto", "transform"]), "[" + src + "]")]
+
     def _tool_text(self, rng, depth):
         """a tool call whose arguments are allowed-subset expressions (nested allow-listed calls with keywords)"""
         def arg():
@@ -165,6 +198,9 @@ class C02(Prop):
                 continue
             if rng.random() < 0.06:
                 lines += self._big_lines(rng, self._tier)
+                continue
+            if rng.random() < 0.07:
+                lines += self._literal_lines(rng)
                 continue
             if k < 0.04:
                 els = [rng.choice(['"\\/"', '"\\ud83d\\ude00"', '"\\u00e9"', "'a'", '"b"', "1", "2.5", "1e5", "-0", "True",
@@ -378,6 +414,52 @@ class C02(Prop):
         spaces.append({"name": f"large values (strings / lists / tuples / ints / bytes of {len(sizes)} sizes around 4 Ki, 8 Ki, "
                                "64 Ki, 1 Mi; repetition, concatenation, formatting, one long literal) x position x math / "
                                "logic / auto / tool / transform / digest_glucose / agent", "cases": cases})
+        # the CONTENTS of string literals: every code point of Unicode written out in literals; fragments a text preprocessor
+        # would rewrite x positions x pathways / entry points; spellings Python refuses
+        cases = []
+        lines = None
+        n = 0
+        for j, (f, g) in enumerate(mito.LITERAL_PAIRS):
+            for src in mito.literal_texts(f, g, j):
+                if lines is None or len(lines) > 60:
+                    lines = mito.header(rng, self.facts, tools=self.TOOLS, silent=True, ros=(1000, 1))
+                    cases.append({"lines": lines, "note": "literal contents a text preprocessor would rewrite"})
+                n += 1
+                lines.append(mito.cmet_line(["math", "logic", "auto"][n % 3], src))
+                if n % 2 == 0:
+                    lines.append(mito.cmet_line("math", src))
+                if n % 5 == 0:
+                    lines.append(mito.cdg_line(src, False))
+                if n % 7 == 0:
+                    lines.append(mito.cmet_line("auto", "first(" + src + ")"))
+                if n % 11 == 0:
+                    lines.append(mito.cmet_line("auto", "[" + src + "]"))
+            c, d = mito.lit_quote("a" + f + "b"), mito.lit_quote(g + f)
+            if c and d:
+                t = mito.STRCONST_TRACER[j % len(mito.STRCONST_TRACER)].format(c=c, d=d)
+                lines += [mito.met_line("math", t), mito.pyev_line(t)]
+        lines = mito.header(rng, self.facts, tools=self.TOOLS, silent=True, ros=(1000, 1))
+        for src in mito.SPELLINGS:
+            lines += [mito.cmet_line("math", src), mito.cmet_line("logic", src), mito.cmet_line("auto", src),
+                      mito.cdg_line(src, False)]
+        cases.append({"lines": lines, "note": "spellings Python refuses"})
+        chunks = mito.unicode_chunk_literals(8000, quick=(tier == "quick"))
+        for i in range(0, len(chunks), 12):
+            lines = mito.header(rng, self.facts, tools=self.TOOLS, silent=True, ros=(1000, 1))
+            for j, (first, lit) in enumerate(chunks[i:i + 12]):
+                lines.append(mito.cmet_line("math", lit))
+                lines.append(mito.cmet_line("auto", "[" + lit + "]"))
+                if (i + j) % 3 == 0:
+                    lines.append(mito.cmet_line("tool", "first(" + lit + ")"))
+                if (i + j) % 3 == 1:
+                    lines.append(mito.cmet_line("auto", lit))
+                if (i + j) % 3 == 2:
+                    lines.append(mito.cdg_line(lit, False))
+            cases.append({"lines": lines, "note": f"every code point in string literals (from U+{chunks[i][0]:04X})"})
+        spaces.append({"name": f"string-literal contents: every code point ({len(chunks)} literals of 8000 characters), "
+                               f"{len(mito.LITERAL_PAIRS)} fragments a text preprocessor would rewrite x positions x math / "
+                               f"logic / auto / tool / transform / digest_glucose / agent; {len(mito.SPELLINGS)} spellings "
+                               "Python refuses", "cases": cases})
         # every allow-listed name with concrete arguments; every operator on concrete operand pairs
         cases, lines = [], None
         srcs = []
